@@ -80,7 +80,13 @@ func c14Body(size int, seed uint64, spoil string) (raw, want []byte) {
 
 			continue
 		}
-		switch v := r.IntN(40); {
+		v := r.IntN(40)
+		if size > 1<<20 && wb.Len() == 0 {
+			// Large lists start with a rule: the generator need not build them to
+			// know that they are not empty.
+			v = 4
+		}
+		switch {
 		case v == 0:
 			rb.WriteString("# comment " + strconv.Itoa(r.IntN(1000)) + "\n")
 		case v == 1:
@@ -93,6 +99,16 @@ func c14Body(size int, seed uint64, spoil string) (raw, want []byte) {
 			n := lineLen()
 			var sb strings.Builder
 			sb.WriteString("||")
+			if n > 4096 {
+				// Long lines: a random 61-byte block repeated (fast for tens of MiB).
+				var blk [61]byte
+				for j := range blk {
+					blk[j] = "abcdefghijklmnopqrstuvwxyz0123456789-."[r.IntN(38)]
+				}
+				for sb.Len()+len(blk) < n {
+					sb.Write(blk[:])
+				}
+			}
 			for sb.Len() < n {
 				sb.WriteByte("abcdefghijklmnopqrstuvwxyz0123456789-."[r.IntN(38)])
 			}
@@ -267,6 +283,10 @@ func (p *c14Parent) close() {
 
 func c14ShmRoot() string { return "/dev/shm/verif-c14-filtering-" + strconv.Itoa(os.Getpid()) }
 
+// c14Cap is rulelist.DefaultMaxRuleListSize (64 MiB): sizes around it cross the
+// only size-dependent boundary a list download may meet on its way to the file.
+const c14Cap = 64 << 20
+
 const c14DestRel = "W/data/" + filterDir + "/7.txt"
 
 func c14Size(r *rand.Rand) int {
@@ -288,9 +308,30 @@ func c14Size(r *rand.Rand) int {
 	}
 }
 
+// genCap emits a block whose downloads cross the 64 MiB cap: the file must then
+// hold the COMPLETE list (or, if the code refuses it, the complete old one).
+func (p *c14Parent) genCap(r *rand.Rand, emit vutil.Emit, src string, sizes []int) {
+	emit("C14.reset", fmt.Sprintf("filter-same-%d-%s", r.Uint64N(1<<40), src), vutil.Hex(c14DestRel), "0")
+	for _, size := range sizes {
+		emit("C14.save", "ok", strconv.Itoa(size), strconv.FormatUint(r.Uint64N(1<<40), 10), "1", "0", "same")
+	}
+}
+
 func (p *c14Parent) gen(r *rand.Rand, emit vutil.Emit) {
 	n := vutil.N(40)
+	// One download just over the cap in every run; thorough: both sides of the
+	// cap, both kinds of source, and a smaller list replacing the large one.
+	p.genCap(r, emit, "http", []int{c14Cap + 1 + r.IntN(1<<20)})
 	for b := 0; b < n; b++ {
+		if vutil.Thorough() && b%60 == 30 {
+			src := "http"
+			if r.IntN(3) == 0 {
+				src = "file"
+			}
+			p.genCap(r, emit, src, []int{c14Cap - 1 - r.IntN(2<<20), c14Cap + 1 + r.IntN(2<<20), r.IntN(1 << 16)})
+
+			continue
+		}
 		mode := "same"
 		if r.IntN(4) == 0 {
 			mode = "xdev"
@@ -326,8 +367,11 @@ func (p *c14Parent) gen(r *rand.Rand, emit vutil.Emit) {
 			switch v := r.IntN(20); {
 			case v < 11:
 				// A list without rules has checksum 0, as has a filter never loaded.
-				_, want := c14Body(size, seed, "")
-				empty := len(want) == 0
+				empty := false
+				if size <= 1<<20 {
+					_, want := c14Body(size, seed, "")
+					empty = len(want) == 0
+				}
 				commit := !(empty && curEmpty) && fault != "faildir"
 				emit("C14.save", "ok", sz, sd, vutil.B(commit), "0", probe)
 				if commit {
